@@ -751,6 +751,30 @@ def c08_pairs(tier: str) -> List[Dict[str, str]]:
     add("xpath/descendant-forall-bound", 'forall <assgn> a: a..<digit> = "1"', 'forall <assgn> a in start: forall <digit> d in a: (= d "1")')
     add("xpath/def-use", 'exists <assgn> decl: (before(decl, <assgn>) and <assgn>.<rhs>.<var> = decl.<var>)',
         'forall <assgn> assgn="<var> := {<var> rhs}" in start: exists <assgn> decl="{<var> lhs} := <rhs>" in start: (before(decl, assgn) and (= rhs lhs))')
+    # chains of three segments followed by the descendant axis (the intermediate variable is typed after the LAST element)
+    c3 = ('(forall <stmt> s="<var> := {<rhs> r} ; <stmt>" in start: forall <var> v in r: (= v "a")) and '
+          '(forall <stmt> s="<var> := {<rhs> r}" in start: forall <var> v in r: (= v "a"))')
+    add("xpath/chain3-descendant", '<stmt>.<assgn>.<rhs>..<var> = "a"', c3)
+    add("xpath/chain3-descendant-bound", 'forall <stmt> s: s.<assgn>.<rhs>..<var> = "a"', c3)
+    add("xpath/chain3", '<stmt>.<assgn>.<rhs>.<digit> = "1"',
+        '(forall <stmt> s="<var> := {<digit> d} ; <stmt>" in start: (= d "1")) and (forall <stmt> s="<var> := {<digit> d}" in start: (= d "1"))')
+    # interplay of fresh names: XPath variables, free nonterminals, unnamed quantifiers, const declarations
+    add("names/xpath-var-vs-free-nonterminal", 'exists <assgn> a: a.<var> = <var>',
+        'forall <var> v in start: exists <assgn> a="{<var> l} := <rhs>" in start: (= l v)')
+    add("names/const-declaration", 'const s: <start>; forall <var>: <var> = "a"', 'forall <var> v in start: (= v "a")')
+    add("names/free-nonterminal-before-unnamed-quantifier", '<var> = "a" and (exists <var>: <var> = "a")',
+        'forall <var> v in start: ((= v "a") and exists <var> w in start: (= w "a"))')
+    add("names/free-nonterminal-after-unnamed-quantifier", '(exists <var>: <var> = "a") and <var> = "a"',
+        'forall <var> v in start: ((exists <var> w in start: (= w "a")) and (= v "a"))')
+    add("names/sibling-unnamed-quantifiers-xpath", '(exists <assgn>: <assgn>.<var> = "a") and (exists <assgn>: <assgn>.<var> = "b")',
+        '(exists <assgn> x="{<var> l} := <rhs>" in start: (= l "a")) and (exists <assgn> y="{<var> m} := <rhs>" in start: (= m "b"))')
+    add("names/xpath-then-free-nonterminal", '<assgn>.<rhs>.<var> = "a" and <var> = "a"',
+        'forall <var> v in start: ((forall <assgn> x="<var> := {<var> r}" in start: (= r "a")) and (= v "a"))')
+    add("names/free-nonterminal-then-xpath", '<var> = "a" and <assgn>.<rhs>.<var> = "a"',
+        'forall <var> v in start: ((= v "a") and (forall <assgn> x="<var> := {<var> r}" in start: (= r "a")))')
+    add("xpath/exists-child-alternatives-descendant", 'exists <stmt> s: s.<assgn>..<var> = "a"',
+        '(exists <stmt> s="{<assgn> x}" in start: forall <var> v in x: (= v "a")) or '
+        '(exists <stmt> t="{<assgn> y} ; <stmt>" in start: forall <var> w in y: (= w "a"))')
     # --- XPath position [i] (grammar with twelve <cell> children)
     for k in range(1, 13):
         mexpr = ",".join("{<cell> c}" if i == k else "<cell>" for i in range(1, 13))
